@@ -202,6 +202,8 @@ def apply_step(h, m: Model, step, handles: dict) -> list[Fail]:
             m.add(mp[bi].idx, bn["op"], par, b.num_out_ports(bh[bi]), bn["meta"])
             m.nodes[mp[bi].idx]["min_in"] = 0
             handles[mp[bi].idx] = mp[bi]
+        for bi in bm.live():
+            m.nodes[mp[bi].idx]["children"] = [mp[c].idx for c in bm.nodes[bi]["children"]]
         for s, so, d, do in bm.links:
             m.link(mp[s].idx, so, mp[d].idx, do)
         if bm.flags & {"multi-link"}:
@@ -489,3 +491,17 @@ def valid_mutations(max_steps=8):
         (3, st.tuples(st.just("delete_node"), SEL).map(list)),
     ]
     return st.lists(weighted(*alts), max_size=max_steps)
+
+
+def reuse_mutations(max_steps=30):
+    """Histories dominated by node additions (under any live node) and leaf deletions, so that
+    several indices are free at once and get reused under parents of various indices."""
+    from vlib.asts import weighted
+
+    alts = [
+        (5, st.tuples(st.just("add_node"), st.sampled_from(OP_POOL), SEL, st.one_of(st.none(), st.integers(0, 3)), META).map(list)),
+        (4, st.tuples(st.just("delete_node"), SEL).map(list)),
+        (1, st.tuples(st.just("add_link"), SEL, OFF, SEL, OFF).map(list)),
+        (1, st.tuples(st.just("add_order_link"), SEL, SEL).map(list)),
+    ]
+    return st.lists(weighted(*alts), min_size=6, max_size=max_steps)
